@@ -10,8 +10,13 @@
    "Vendor" (differs in case only: the rule is case-sensitive), "x.y" (dot inside), "x_", "a_b" (underscore not as
    prefix).  The skip rule is modelled on the SPELLING of the name (Spell), exactly as internal/skipdir.ShouldSkip
    is coded: name == "vendor" || name == "node_modules" || HasPrefix(name, ".") || HasPrefix(name, "_").
+   PATH SHAPES with ".templ" elsewhere than as the final extension: directories "v.templates" (".templ" inside a
+   directory component), "p.templ" and "b.templ" (a DIRECTORY whose name ends in .templ: it matches the watch
+   pattern), files "a.templ.templ" (twice in the base name) and "v.templ" (whose _templ.go is what a first-occurrence
+   cut of "v.templates/x.templ" hits).  The ROOT of the tree has a name of its own (flags.root): "d" plain, or a
+   name the skip rule would skip ("_x", "vendor", ".x") -- the root is what the user asked to generate.
    Names and contents:
-     a.templ, b.templ       "good" | "unparsable" (parser.Parse fails) | "badgo" (format.Source fails)
+     a.templ, b.templ, v.templ, a.templ.templ   "good" | "unparsable" (parser.Parse fails) | "badgo" (format.Source fails)
      a_templ.go, b_templ.go "genV" / "genN" = the gofmt-formatted generation of the sibling .templ alone with /
                             without the version comment, "junk" = anything else
      o.go                   an unrelated Go file (matches the watch pattern, is only classified)
@@ -33,6 +38,8 @@
 
    Bug switches (negative configs): Mutex = FALSE (UpsertHash without hashesMutex), ErrsCloser =
    "dispatcher" (errs closed as soon as the events are drained, before the workers finish),
+   TargetRule = "cutfirst" (x.templ -> x_templ.go by cutting at the FIRST ".templ" of the path), WalkRule / OrphanStat /
+   RootRule = "coded" (the three deviations of the pinned code, see the constants),
    MainReadsErrs = FALSE (main waits for the wait groups before reading errs), SlotRelease = "onsuccess" (a
    worker that failed never releases its semaphore slot: with as many failing files as workers the dispatcher
    blocks forever), GenVariants = {1, 2} (the generator is not a function of the file), SkipRule (the walker does not
@@ -49,6 +56,14 @@ CONSTANTS Trees,          \* set of initial trees; a tree is a set of files [dir
           GenVariants,    \* {1}: generating a file is a function of its contents (as it must be); {1, 2}: the generator is
                           \* nondeterministic (e.g. it ranges over a Go map): every generation picks one of the variants
           SlotRelease,    \* "deferred" (as coded: defer func() { <-sem }()) | "onsuccess" (the error path keeps its slot)
+          TargetRule,     \* "trimsuffix" (as coded: strings.TrimSuffix(name, ".templ") + "_templ.go") | "cutfirst" (strings.Cut at
+                          \* the first ".templ" anywhere in the path)
+          WalkRule,       \* "filesonly": only files get events | "coded": WalkFiles also emits an event for a DIRECTORY whose
+                          \* name matches the watch pattern (pinned code)
+          OrphanStat,     \* "fileonly": a generated file is orphaned iff there is no template FILE | "coded": os.Stat also
+                          \* succeeds on a directory of that name (pinned code)
+          RootRule,       \* "exempt": the root is never skipped | "coded": ShouldSkip is applied to the root's own name too
+          RootTrees,      \* the trees that are explored with a root name other than "d"
           SkipRule,       \* "coded" | "nounderscore" | "nodot" | "suffix" | "prefix" | "foldcase" | "contains"
           TwoRuns,        \* TRUE: compose a second run
           EmitCases       \* TRUE: print one record per terminated behaviour
@@ -67,19 +82,26 @@ vars == <<tree0, flags, W, fs, run, fs1, st1, evs, nextev, wpc, dpc, dcur, wk, s
 
 -----------------------------------------------------------------------------
 (* names *)
-TemplNames == {"a.templ", "b.templ"}
-GenNames   == {"a_templ.go", "b_templ.go"}
-SibOf(n)   == IF n = "a.templ" THEN "a_templ.go" ELSE "b_templ.go"
-TemplOf(n) == IF n = "a_templ.go" THEN "a.templ" ELSE "b.templ"
-Matches(n) == n \in TemplNames \cup GenNames \cup {"o.go"}       \* (.+\.go$)|(.+\.templ$)
+TemplNames == {"a.templ", "b.templ", "v.templ", "a.templ.templ"}                 \* FILE names ending in .templ
+GenNames   == {"a_templ.go", "b_templ.go", "v_templ.go", "p_templ.go", "a.templ_templ.go"}
+\* strings.TrimSuffix(name, ".templ") + "_templ.go" and its inverse (orphan test) on base names
+SibOf(n)   == CASE n = "a.templ" -> "a_templ.go" [] n = "b.templ" -> "b_templ.go" [] n = "v.templ" -> "v_templ.go"
+                [] n = "p.templ" -> "p_templ.go" [] n = "a.templ.templ" -> "a.templ_templ.go"
+TemplOf(n) == CASE n = "a_templ.go" -> "a.templ" [] n = "b_templ.go" -> "b.templ" [] n = "v_templ.go" -> "v.templ"
+                [] n = "p_templ.go" -> "p.templ" [] n = "a.templ_templ.go" -> "a.templ.templ"
+EndsTempl(n) == n \in TemplNames \cup {"p.templ"}                                \* strings.HasSuffix(name, ".templ")
+Matches(n) == EndsTempl(n) \/ n \in GenNames \cup {"o.go"}                       \* (.+\.go$)|(.+\.templ$)
 
 \* byte order of the names inside one directory (fs.WalkDir sorts directory entries by name); the harness checks
 \* that every emitted file list is in the byte order of the real paths
-Rank(n) == CASE n = ".x" -> 1 [] n = "Vendor" -> 2 [] n = "_x" -> 3 [] n = "a.templ" -> 4 [] n = "a_b" -> 5
-             [] n = "a_templ.go" -> 6 [] n = "b.templ" -> 7 [] n = "b_templ.go" -> 8 [] n = "d" -> 9
-             [] n = "multivendor" -> 10 [] n = "n.txt" -> 11 [] n = "node_modules" -> 12 [] n = "node_modules2" -> 13
-             [] n = "o.go" -> 14 [] n = "old_node_modules" -> 15 [] n = "vendor" -> 16 [] n = "vendored" -> 17
-             [] n = "x.y" -> 18 [] n = "x_" -> 19
+Rank(n) == CASE n = ".x" -> 1 [] n = "Vendor" -> 2 [] n = "_x" -> 3 [] n = "a.templ" -> 4 [] n = "a.templ.templ" -> 5
+             [] n = "a.templ_templ.go" -> 6 [] n = "a_b" -> 7
+             [] n = "a_templ.go" -> 8 [] n = "b.templ" -> 9 [] n = "b_templ.go" -> 10 [] n = "d" -> 11
+             [] n = "multivendor" -> 12 [] n = "n.txt" -> 13 [] n = "node_modules" -> 14 [] n = "node_modules2" -> 15
+             [] n = "o.go" -> 16 [] n = "old_node_modules" -> 17 [] n = "p.templ" -> 18 [] n = "p_templ.go" -> 19
+             [] n = "v.templ" -> 20 [] n = "v.templates" -> 21 [] n = "v_templ.go" -> 22
+             [] n = "vendor" -> 23 [] n = "vendored" -> 24
+             [] n = "x.y" -> 25 [] n = "x_" -> 26
 
 \* the spelling of a directory name, one character per element (TLC cannot index into strings); SpellOK below makes
 \* TLC verify at start-up that the table spells the names it is indexed by
@@ -96,11 +118,18 @@ Spell(n) == CASE n = "d"            -> <<"d">>
               [] n = "x.y"          -> <<"x", ".", "y">>
               [] n = "x_"           -> <<"x", "_">>
               [] n = "a_b"          -> <<"a", "_", "b">>
+              [] n = "v.templates"  -> <<"v", ".", "t", "e", "m", "p", "l", "a", "t", "e", "s">>
+              [] n = "p.templ"      -> <<"p", ".", "t", "e", "m", "p", "l">>
+              [] n = "b.templ"      -> <<"b", ".", "t", "e", "m", "p", "l">>
+              [] n = "a.templ"      -> <<"a", ".", "t", "e", "m", "p", "l">>
+              [] n = "v.templ"      -> <<"v", ".", "t", "e", "m", "p", "l">>
+              [] n = "a.templ.templ" -> <<"a", ".", "t", "e", "m", "p", "l", ".", "t", "e", "m", "p", "l">>
+TemplPathNames == {"v.templates", "p.templ", "b.templ"}                \* directory names with ".templ" in them
 AllDirNames == {"d", "vendor", "node_modules", ".x", "_x", "multivendor", "vendored", "Vendor", "old_node_modules",
-                "node_modules2", "x.y", "x_", "a_b"}
+                "node_modules2", "x.y", "x_", "a_b"} \cup TemplPathNames
 RECURSIVE Cat(_)
 Cat(s) == IF s = << >> THEN "" ELSE Head(s) \o Cat(Tail(s))
-SpellOK == \A n \in AllDirNames : Cat(Spell(n)) = n
+SpellOK == \A n \in AllDirNames \cup TemplNames : Cat(Spell(n)) = n
 ASSUME SpellOK
 
 HasPrefix(s, p) == Len(s) >= Len(p) /\ SubSeq(s, 1, Len(p)) = p
@@ -124,6 +153,23 @@ SkipName(n) == LET s == Spell(n) IN
          [] OTHER                     -> HasPrefix(s, <<"_">>)
 Skipped(dir) == \E i \in 1..Len(dir) : SkipName(dir[i])          \* WalkDir never descends into a skipped directory
 
+\* x.templ -> x_templ.go. As coded the extension is trimmed from the file name: the target is NEXT TO the source.
+\* "cutfirst" cuts the whole path at the first ".templ": a directory component (or the base name) that contains
+\* ".templ" earlier makes the target a file in a parent directory / a different base name.
+DotTempl == <<".", "t", "e", "m", "p", "l">>
+IndexOf(s, sub) == IF \E i \in 1..(Len(s) - Len(sub) + 1) : SubSeq(s, i, i + Len(sub) - 1) = sub
+                   THEN CHOOSE i \in 1..(Len(s) - Len(sub) + 1) :
+                            /\ SubSeq(s, i, i + Len(sub) - 1) = sub
+                            /\ \A j \in 1..(i - 1) : SubSeq(s, j, j + Len(sub) - 1) # sub
+                   ELSE 0
+CutName(n) == Cat(SubSeq(Spell(n), 1, IndexOf(Spell(n), DotTempl) - 1)) \o "_templ.go"
+Target(k) ==
+    IF TargetRule = "trimsuffix" THEN <<k[1], SibOf(k[2])>>
+    ELSE IF \E i \in 1..Len(k[1]) : IndexOf(Spell(k[1][i]), DotTempl) > 0
+         THEN LET i == CHOOSE j \in 1..Len(k[1]) : IndexOf(Spell(k[1][j]), DotTempl) > 0 /\ \A h \in 1..(j - 1) : IndexOf(Spell(k[1][h]), DotTempl) = 0
+              IN  <<SubSeq(k[1], 1, i - 1), CutName(k[1][i])>>
+         ELSE <<k[1], CutName(k[2])>>
+
 PathOf(k) == [i \in 1..(Len(k[1]) + 1) |-> IF i <= Len(k[1]) THEN Rank(k[1][i]) ELSE Rank(k[2])]
 RECURSIVE LexLess(_, _)
 LexLess(p, q) == IF p = << >> THEN q # << >>
@@ -134,9 +180,22 @@ PathLess(k1, k2) == LexLess(PathOf(k1), PathOf(k2))
 
 Key(f) == <<f.dir, f.name>>
 FsOf(tree) == [k \in {Key(f) : f \in tree} |-> LET f == CHOOSE g \in tree : Key(g) = k IN [c |-> f.c, m |-> f.m]]
-Events(fsys) == SetToSortSeq({k \in DOMAIN fsys : ~Skipped(k[1]) /\ Matches(k[2])}, PathLess)
+\* the directories of a tree, as <<parent, name>>
+DirEntries(fsys) == UNION { { <<SubSeq(k[1], 1, i - 1), k[1][i]>> : i \in 1..Len(k[1]) } : k \in DOMAIN fsys }
+\* watcher.WalkFiles: nothing below a skipped directory; an event for every entry whose name matches the pattern --
+\* as coded also for a directory; as coded the root's own name is passed to ShouldSkip as well
+EventsR(fsys, root) ==
+    IF RootRule = "coded" /\ SkipName(root) THEN << >>
+    ELSE SetToSortSeq({k \in DOMAIN fsys : ~Skipped(k[1]) /\ Matches(k[2])}
+                      \cup (IF WalkRule = "coded"
+                            THEN {e \in DirEntries(fsys) : ~Skipped(e[1]) /\ ~SkipName(e[2]) /\ Matches(e[2])}
+                            ELSE {}), PathLess)
+Events(fsys) == EventsR(fsys, flags.root)
 
 Present(k) == k \in DOMAIN fs
+IsDir(k)   == k \in DirEntries(FsOf(tree0))
+\* os.Stat(name) err == nil
+StatOK(k)  == Present(k) \/ IsDir(k)
 GenContent == IF flags.ver THEN "genV" ELSE "genN"
 
 Idle == [pc |-> "idle", err |-> FALSE, post |-> FALSE]
@@ -152,6 +211,7 @@ StartRun(fsys, r) ==
     /\ run = r
 
 Init == /\ tree0 \in Trees /\ flags \in FlagSets /\ W \in Ws
+        /\ (flags.root # "d" => tree0 \in RootTrees)
         /\ fs = FsOf(tree0) /\ fs1 = << >> /\ st1 = [status |-> "none", errors |-> 0] /\ clock = 3
         /\ StartRun(FsOf(tree0), 1)
         /\ lbl = [op |-> "init"]
@@ -205,7 +265,7 @@ WStart(i) ==
     /\ wk[i].pc = "start"
     /\ LET k == evs[i] IN
        IF k[2] \in GenNames
-       THEN IF Present(<<k[1], TemplOf(k[2])>>) \/ flags.keep
+       THEN IF (IF OrphanStat = "coded" THEN StatOK(<<k[1], TemplOf(k[2])>>) ELSE Present(<<k[1], TemplOf(k[2])>>)) \/ flags.keep
             THEN /\ Set(i, "finish", FALSE, FALSE) /\ fs' = fs                       \* not orphaned / kept
             ELSE /\ fs' = [x \in (DOMAIN fs) \ {k} |-> fs[x]]                        \* os.Remove
                  /\ Set(i, After(FALSE, TRUE), FALSE, TRUE)                          \* GoUpdated: true
@@ -219,18 +279,20 @@ WModTime(i) ==
     /\ LET k == evs[i] IN
        /\ lastMod' = lastMod \cup {k}
        /\ IF k \in lastMod THEN Set(i, "finish", FALSE, FALSE)                       \* not updated since last time
-          ELSE IF k[2] \notin TemplNames THEN Set(i, After(FALSE, TRUE), FALSE, TRUE)    \* a .go file: GoUpdated
+          ELSE IF ~EndsTempl(k[2]) THEN Set(i, After(FALSE, TRUE), FALSE, TRUE)         \* a .go file: GoUpdated
           ELSE Set(i, "gen", FALSE, FALSE)
     /\ lbl' = [op |-> "modtime", i |-> i]
     /\ UNCHANGED <<fs, hashes, inHash, race, clock>> /\ UNCHANGED WUnch
 
 \* lazy test, parse, generate, format
-UpToDate(k) == LET s == <<k[1], SibOf(k[2])>> IN Present(s) /\ fs[s].m > fs[k].m        \* goFileIsUpToDate
+\* a directory's modification time is that of the last creation / removal inside it: later than every initial file
+MTime(k) == IF Present(k) THEN fs[k].m ELSE 1000
+UpToDate(k) == LET s == Target(k) IN StatOK(s) /\ MTime(s) > MTime(k)                   \* goFileIsUpToDate
 WGen(i) ==
     /\ wk[i].pc = "gen"
     /\ LET k == evs[i] IN
        IF flags.lazy /\ UpToDate(k) THEN Set(i, "finish", FALSE, FALSE)
-       ELSE IF fs[k].c \in {"unparsable", "badgo"} THEN Set(i, After(TRUE, FALSE), TRUE, FALSE)
+       ELSE IF IsDir(k) \/ fs[k].c \in {"unparsable", "badgo"} THEN Set(i, After(TRUE, FALSE), TRUE, FALSE)   \* a directory: parser.Parse fails
        ELSE Set(i, "hash", FALSE, FALSE)
     /\ lbl' = [op |-> "generate", i |-> i]
     /\ UNCHANGED <<fs, lastMod, hashes, inHash, race, clock>> /\ UNCHANGED WUnch
@@ -238,7 +300,7 @@ WGen(i) ==
 \* UpsertHash(target, sha256(formatted))
 WHash(i) ==
     /\ wk[i].pc = "hash"
-    /\ LET t == <<evs[i][1], SibOf(evs[i][2])>> IN
+    /\ LET t == Target(evs[i]) IN
        IF Mutex
        THEN /\ hashes' = hashes \cup {t}
             /\ Set(i, IF t \in hashes THEN "finish" ELSE "write", FALSE, FALSE)
@@ -251,7 +313,7 @@ WHash(i) ==
     /\ UNCHANGED <<fs, lastMod, clock>> /\ UNCHANGED WUnch
 WHash2(i) ==
     /\ wk[i].pc = "hash2"
-    /\ LET t == <<evs[i][1], SibOf(evs[i][2])>> IN
+    /\ LET t == Target(evs[i]) IN
        /\ hashes' = hashes \cup {t} /\ inHash' = inHash \ {i}
        /\ Set(i, IF t \in hashes THEN "finish" ELSE "write", FALSE, FALSE)
     /\ lbl' = [op |-> "hash2", i |-> i]
@@ -260,7 +322,7 @@ WHash2(i) ==
 \* h.writer(targetFileName, formattedGoCode); outside watch mode GoUpdated stays false
 WWrite(i) ==
     /\ wk[i].pc = "write"
-    /\ LET t == <<evs[i][1], SibOf(evs[i][2])>> IN
+    /\ LET t == Target(evs[i]) IN
        \E v \in GenVariants :       \* variant 1 is "the" generation of the file alone; any other is a different byte sequence
           fs' = [x \in (DOMAIN fs) \cup {t} |-> IF x = t THEN [c |-> IF v = 1 THEN GenContent ELSE "other-generation", m |-> clock] ELSE fs[x]]
     /\ clock' = clock          \* every write of one run lands after all initial files; runs are separated below
@@ -346,13 +408,22 @@ SecondRun == /\ TwoRuns /\ run = 1 /\ mpc = "done" /\ ~panic
              /\ lbl' = [op |-> "second-run"]
              /\ UNCHANGED <<tree0, flags, W, fs>>
 
+\* which deviations of the pinned code a configuration exercises under the rules of this run (attribution of the emitted case)
+Why == (IF RootRule = "coded" /\ SkipName(flags.root) THEN <<"WalkFiles.RootSkipped">> ELSE << >>)
+       \o (IF WalkRule = "coded" /\ \E e \in DirEntries(FsOf(tree0)) : ~Skipped(e[1]) /\ ~SkipName(e[2]) /\ Matches(e[2])
+           THEN <<"WalkFiles.DirectoryMatchesPattern">> ELSE << >>)
+       \o (IF OrphanStat = "coded" /\ ~flags.keep
+              /\ \E k \in DOMAIN FsOf(tree0) : k[2] \in GenNames /\ ~Skipped(k[1]) /\ <<k[1], TemplOf(k[2])>> \in DirEntries(FsOf(tree0))
+                                                /\ <<k[1], TemplOf(k[2])>> \notin DOMAIN FsOf(tree0)
+           THEN <<"OrphanTest.DirectoryCountsAsTemplate">> ELSE << >>)
 Finished == mpc = "done" /\ (run = 2 \/ ~TwoRuns \/ panic)
 Terminated == /\ Finished /\ UNCHANGED vars
               /\ lbl' = [op |-> "case", files |-> FileList(FsOf(tree0)), flags |-> flags, w |-> W,
                          final1 |-> FileList(IF TwoRuns THEN fs1 ELSE fs),
                          status1 |-> IF TwoRuns THEN st1.status ELSE status,
                          errors1 |-> IF TwoRuns THEN st1.errors ELSE errorCount,
-                         final2 |-> FileList(fs), status2 |-> status, errors2 |-> errorCount]
+                         final2 |-> FileList(fs), status2 |-> status, errors2 |-> errorCount,
+                         why |-> Why]
 
 Next == \/ WalkSend \/ WalkClose \/ Spawn \/ EventsDrained \/ ClosePost
         \/ \E i \in 1..Len(evs) : Worker(i)
@@ -370,7 +441,7 @@ F0 == FsOf(tree0)
 \* name, or has the dot / underscore elsewhere, is NOT skipped
 SkipNameProp(n) == n \in {"vendor", "node_modules"} \/ Head(Spell(n)) \in {".", "_"}
 Live(k) == ~\E i \in 1..Len(k[1]) : SkipNameProp(k[1][i])
-Templs  == {k \in DOMAIN F0 : k[2] \in TemplNames /\ Live(k)}
+Templs  == {k \in DOMAIN F0 : k[2] \in TemplNames /\ Live(k)}        \* template FILES of the tree the user named
 Sib(k)  == <<k[1], SibOf(k[2])>>
 LazySkipped(k) == flags.lazy /\ Sib(k) \in DOMAIN F0 /\ F0[Sib(k)].m > F0[k].m      \* -lazy: a newer sibling is trusted
 Attempted(k)   == ~LazySkipped(k)
@@ -386,6 +457,10 @@ AllKeys == DOMAIN F0 \cup {Sib(t) : t \in Templs}
 Holds(fsys, k) == CASE Expected1(k) = "gen"       -> k \in DOMAIN fsys /\ fsys[k].c = GenContent
                     [] Expected1(k) = "absent"    -> k \notin DOMAIN fsys
                     [] Expected1(k) = "untouched" -> k \in DOMAIN fsys /\ fsys[k] = F0[k]
+
+\* every accepted template has its own _templ.go NEXT TO IT, and no two templates share a target
+TargetNextToSource == \A t \in Templs : Target(t) = Sib(t)
+TargetInjective    == \A t1, t2 \in Templs : t1 # t2 => Target(t1) # Target(t2)
 
 \* the first run has just terminated (the second run, if any, starts from here)
 AfterRun1 == run = 1 /\ mpc = "done"
